@@ -73,7 +73,7 @@ func rulesC14Round2(c *Ctx) {
 		c.Analysed[fname(fn)] = true
 		var inserts []ssa.Instruction
 		marks := map[string][]ssa.Instruction{}
-		for _, b := range fn.Blocks {
+		for _, b := range blocksIP(fn) {
 			for _, in := range b.Instrs {
 				mu, ok := in.(*ssa.MapUpdate)
 				if !ok {
